@@ -157,7 +157,12 @@ func TestGenerated(t *testing.T) {
 	hx.Check(t, test, hx.N(150, 2500), func(rt *rapid.T) {
 		m, feats := gen.Module(rt, genCfg())
 		gen.SparseMetadataIDs(rt, m)
-		x := m.TextNoisy(gen.DrawNoise(rt))
+		noise := gen.DrawNoise(rt)
+		if noise.SplitAttrGroups && genOff["noise-split-attrgroups"] {
+			noise.SplitAttrGroups = false
+			hx.Known("excluded:noise-split-attrgroups")
+		}
+		x := m.TextNoisy(noise)
 		hx.Eval(1)
 		o := judge(rt, test, "own-generator", "; source: own-generator\n"+x, true)
 		if o.V == orc.OK {
